@@ -118,6 +118,7 @@ RULE_GROUPS: Dict[str, Callable] = {
     'hy.save_survives_run_exit': hy.rule_save_survives_run_exit,
     'hy.no_path_enumeration': hy.rule_no_path_enumeration,
     'hy.user_code_off_loop': hy.rule_user_code_off_loop,
+    'bw.reachability': bw.rule_reachability,
     'bw.defects_rejected': bw.rule_defects_rejected,
     'bw.translation': bw.rule_translation,
     'bw.merges': bw.rule_merges,
@@ -277,14 +278,14 @@ RULES: Dict[str, Tuple[str, str]] = {
     'RC-6': ('rd.filtered_view', 'the dag of a recurrent re-iteration (the set that is re-armed) is not cut from a view that drops '
                                  'case_branch edges'),
     'BD-8': ('bd.constructs', 'synthetic node ids are unique per declared parameter (own name, fresh id, or consumer + parameter index)'),
-    'VL-6': ('bd.node_map_and_validation', 'every node that enters the seen-set of the traversal is pushed onto the worklist'),
+    'VL-6': ('bw.reachability', 'a node met more than once, or known before the traversal starts, is validated and traversed like any other'),
     'AS-4': ('fs.saves', 'the artifact is saved before the run waiter is notified'),
     'RC-7': ('rd.subgraph_node_set', 'a sub-dag consists of exactly the nodes on dependency paths from its source to its destination'),
     'ST-2': ('st.default_visibility', 'read accessors of the storage treat hidden entries as absent by default'),
     'EX-3': ('ex.decision_table', 'every path of build() to DAG(...) computes the pool flags from the node map'),
     'BD-6': ('bd.node_map_and_validation', 'every visited node is in the node map; build returns copies'),
-    'VL-1': ('bd.node_map_and_validation', 'every node taken from the worklist is validated (all _check_* rules) before any other use'),
-    'VL-2': ('bd.node_map_and_validation', 'every node-valued field of every mark reaches the worklist'),
+    'VL-1': ('bw.reachability', 'a defective node is rejected with the specific error in every slot a declaration set can name it'),
+    'VL-2': ('bw.reachability', 'a node named in any slot of any mark is mapped, added to the graph and traversed'),
     'VL-4': ('bd.node_map_and_validation', 'the recurrent validations dominate the construction of the DAG'),
     'VL-3': ('bd.rejections', 'every rejection class is raised under its documented condition in code reachable from the build entries'),
     'EX-1': ('ex.validation_first', 'DAG.run validates every needed pool before constructing the run manager'),
@@ -530,7 +531,7 @@ _p(PropertySpec(
     not_decided='that every defect-free declaration set builds, and order-independence for arbitrary class graphs (quantify over '
                 'programs); identity of node ids for classes with equal names',
     technique='syntax-directed checks of the builder\'s mark dispatch against the mark dataclasses and the manager\'s attribute reads',
-    floors={'BD-1': 1, 'BD-2': 4, 'BD-3': 2, 'BD-4': 1, 'BD-6': 2, 'VL-2': 4, 'SW-6': 1, 'OO-3': 1, 'RC-5': 1, 'RD-3': 10},
+    floors={'BD-1': 1, 'BD-2': 4, 'BD-3': 2, 'BD-4': 1, 'BD-6': 1, 'VL-2': 8, 'SW-6': 1, 'OO-3': 1, 'RC-5': 1, 'RD-3': 10},
 ))
 
 _p(PropertySpec(
@@ -542,7 +543,7 @@ _p(PropertySpec(
     not_decided='that every declaration set free of these defects builds successfully (quantifies over programs)',
     technique='call-graph reachability from the build entries, syntactic guards of every raise against a frozen condition table, '
               'statement-order dominance',
-    floors={'VL-1': 2, 'VL-2': 4, 'VL-3': 9, 'VL-4': 2, 'VL-5': 6},
+    floors={'VL-1': 8, 'VL-2': 8, 'VL-3': 9, 'VL-4': 2, 'VL-5': 6, 'VL-6': 4},
 ))
 
 _p(PropertySpec(
